@@ -46,6 +46,7 @@ type thread struct {
 	nops    int
 	raceCtx uintptr
 	eager   bool // environment thread: runs as soon as it is enabled, never a choice
+	tag     string
 }
 
 // Point is one choice point of an execution.
@@ -325,6 +326,7 @@ func Go(f func()) {
 	t.ident = t.hash
 	t.name = fmt.Sprintf("t%d", t.id)
 	t.eager = p.eager
+	t.tag = p.tag
 	t.pending = &Op{Kind: "start", Obj: t.hash, Enabled: func() bool { return true }}
 	s.threads = append(s.threads, t)
 	raceSpawn(p, t)
@@ -711,4 +713,35 @@ func SetEager(on bool) {
 	if S != nil && S.cur != nil {
 		S.cur.eager = on
 	}
+}
+
+// SetTag labels the calling thread; threads it spawns from now on inherit the label.
+func SetTag(tag string) {
+	if S != nil && S.cur != nil {
+		S.cur.tag = tag
+	}
+}
+
+// LiveThreads lists the threads carrying the tag that have not finished (the caller excluded),
+// each with the operation it is parked on.
+func LiveThreads(tag string) []string {
+	s := S
+	if s == nil {
+		return nil
+	}
+	var out []string
+	for _, t := range s.threads {
+		if t == s.cur || t.done || t.tag != tag {
+			continue
+		}
+		d := t.name
+		if t.pending != nil {
+			d += " parked on " + t.pending.Kind
+		}
+		if t.loc != "" {
+			d += " at " + t.loc
+		}
+		out = append(out, d)
+	}
+	return out
 }
